@@ -642,7 +642,20 @@ class DatasetOrderUnit(Unit):
                 pairs.append((a, b))
         else:
             pairs = [(a, b) for a in names for b in names if a != b]
-        return [{"first": a, "second": b} for a, b in pairs]
+        cases = [{"first": a, "second": b} for a, b in pairs]
+        # the first dataset is fetched through its own loader function with NON-default options; the second (another
+        # dataset, default options) must not inherit them
+        fam = {}
+        for f_, n_ in doc_names():
+            if f_ != "sandvine":
+                fam.setdefault(f_, []).append(n_)
+        opts = [{"unpack_dataset_columns": True}, {"download_even_if_available": True}, {"n_retries": 0}, {"download_if_missing": True, "unpack_dataset_columns": True}]
+        for f_, ns in sorted(fam.items()):
+            for kw in opts:
+                for _ in range(2 if tier == "quick" else 8):
+                    a, b = rng.sample(ns, 2)
+                    cases.append({"first": a, "second": b, "first_kwargs": kw})
+        return cases
 
     def run(self, c):
         from tools.props.dataset_units import Sandbox
@@ -657,10 +670,21 @@ class DatasetOrderUnit(Unit):
                     return path, None
                 sb.B.urlretrieve = fake
                 try:
-                    load_dataset(c["first"])
+                    if c.get("first_kwargs"):
+                        import traffic_weaver.datasets._datasets as D
+                        getattr(D, "fetch_" + c["first"].replace("-", "_"))(**c["first_kwargs"])
+                    else:
+                        load_dataset(c["first"])
                     r = load_dataset(c["second"])
                     url2 = [u for u, p in sb.downloads][-1] if len(sb.downloads) == 2 else None
-                    return {"second": np.asarray(r).tolist(), "url2": url2, "ndl": len(sb.downloads)}
+                    out = {"second": np.asarray(r).tolist() if isinstance(r, np.ndarray) else None, "kind": type(r).__name__, "url2": url2, "ndl": len(sb.downloads)}
+                    if c.get("first_kwargs"):
+                        # asked once more, the second dataset is cached: no further download
+                        import traffic_weaver.datasets._datasets as D
+                        r3 = getattr(D, "fetch_" + c["second"].replace("-", "_"))()
+                        out["ndl3"] = len(sb.downloads)
+                        out["kind3"] = type(r3).__name__
+                    return out
                 except Exception as e:
                     return {"exc": exn_name(e), "exc_msg": str(e)[:100]}
 
@@ -670,6 +694,12 @@ class DatasetOrderUnit(Unit):
         if o["ndl"] != 2 or o["url2"] is None:
             return [Failure(aspect="order-dependence", what="loading %s after %s did not download its own file (%d downloads): it was served from another dataset's cache" % (
                 c["second"], c["first"], o["ndl"]), signature={"aspect": "order-dependence"})]
+        if o.get("kind") != "ndarray" or o.get("kind3", "ndarray") != "ndarray":
+            return [Failure(aspect="order-dependence", what="%s loaded with default options after %s(%s) came back as %s / %s, not an array" % (
+                c["second"], c["first"], c.get("first_kwargs"), o.get("kind"), o.get("kind3")), signature={"aspect": "order-dependence"})]
+        if o.get("ndl3", 2) != 2:
+            return [Failure(aspect="order-dependence", what="%s, cached, was downloaded again (%d downloads) after %s had been fetched with %s" % (
+                c["second"], o["ndl3"], c["first"], c.get("first_kwargs")), signature={"aspect": "order-dependence"})]
         k = int(hashlib.sha256(o["url2"].encode()).hexdigest()[:6], 16) % 1000
         if o["second"] != [[0.0, float(k)], [1.0, float(k + 1)], [2.0, 3.0]]:
             return [Failure(aspect="order-dependence", what="%s loaded after %s returned other data than its own" % (c["second"], c["first"]), signature={"aspect": "order-dependence"})]
